@@ -1,10 +1,16 @@
 (* C03/Model.v — which certificates a signature is checked against, as coded.
    Mirrors: MetaData.certs (mdstore.py 479-514: KeyDescriptor use filter over all role
-   descriptors), SecurityContext._check_signature certificate selection (sigver.py 1365-1407:
+   descriptors; KeyError on a KeyDescriptor without certificate text), SecurityContext._check_signature certificate selection (sigver.py 1365-1407:
    metadata first, embedded X509 certificates only if that list is empty and
    only_use_keys_in_metadata is false, empty => MissingKey) and its verification loop (1504-1525:
    xmlsec1 restricted to the supplied certificate, first success wins),
-   Request._do_redirect_sig_check (request.py 109-115).
+   Request._do_redirect_sig_check (request.py 109-115): any(verify_redirect_signature(.., cert)) over the
+   issuer's certificates, where sigver.verify_redirect_signature (566-599) first loads the certificate
+   (extract_rsa_key_from_x509_cert: ValueError on octets that are no X.509 certificate -- the exception
+   leaves the any() loop and Request.verify turns it into a rejection) and then calls the RSA primitive.
+   The receiver is long-lived: Entity.reload_metadata / MetadataStore.reload (entity.py 200-223,
+   mdstore.py 1128-1138) replace the loaded metadata between verifications (a failed reload restores the
+   previous set); every verification looks the issuer up in the set loaded at that moment.
    Signatures are ideal: Section variables with the usual symbolic hypotheses. *)
 From Coq Require Import String List Bool.
 From Verif Require Import Base.Str.
@@ -17,6 +23,11 @@ Section Model.
   Variable cert_of : key -> cert.
   Variable sign : key -> msg -> sig.
   Variable verify : cert -> msg -> sig -> bool.
+  (* the published octets load as an X.509 certificate (a truncated / garbage ds:X509Certificate does not) *)
+  Variable readable : cert -> bool.
+  (* a KeyDescriptor that carries no certificate text (empty ds:X509Certificate, ds:X509Data with other
+     children only, ds:KeyName only); in the model it is a keydesc whose "certificate" is blank *)
+  Variable blank : cert -> bool.
 
   (* a KeyDescriptor: optional use + certificate; a role descriptor = its key descriptors; an
      entity = its role descriptors (in the order certs() walks them) *)
@@ -38,7 +49,7 @@ Section Model.
                         | Some Encryption => []
                         end) role.
 
-  Definition signing_certs (md : metadata) (issuer : option string) : list cert :=
+  Definition walk_certs (md : metadata) (issuer : option string) : list cert :=
     match issuer with
     | None => []                                   (* certs(None): KeyError -> [] *)
     | Some e => match lookup_md e md with
@@ -46,6 +57,13 @@ Section Model.
                 | Some roles => flat_map extract_signing roles
                 end
     end.
+
+  (* extract_certs reads key_info["x509_data"][..]["x509_certificate"]["text"] of every KeyDescriptor whose
+     use matches: a KeyDescriptor without certificate text raises KeyError out of certs() -- _check_signature
+     turns that into "no certificates in metadata" (except KeyError: _certs = []), _do_redirect_sig_check
+     lets it propagate (request rejected, nothing tried): either way no metadata certificate is used *)
+  Definition signing_certs (md : metadata) (issuer : option string) : list cert :=
+    let cs := walk_certs md issuer in if existsb blank cs then [] else cs.
 
   Record input := {
     md : metadata;
@@ -74,7 +92,53 @@ Section Model.
                 else let '(ok, h) := try_certs r mm ss in (ok, c :: h)
     end.
 
-  Definition accept (x : input) : bool * list cert := try_certs (candidates x) (m x) (s x).
+  (* detached (query string) signatures, verified in-process: a certificate that does not load raises
+     out of the any() loop => rejection, the remaining certificates are not tried; the certificates
+     listed are those whose public key reached the RSA primitive *)
+  Fixpoint try_detached (cs : list cert) (mm : msg) (ss : sig) : bool * list cert :=
+    match cs with
+    | [] => (false, [])
+    | c :: r => if readable c
+                then if verify c mm ss then (true, [c])
+                     else let '(ok, h) := try_detached r mm ss in (ok, c :: h)
+                else (false, [])
+    end.
+
+  (* does that loop end on a certificate that does not load? *)
+  Fixpoint hits_unreadable (cs : list cert) (mm : msg) (ss : sig) : bool :=
+    match cs with
+    | [] => false
+    | c :: r => if readable c then (if verify c mm ss then false else hits_unreadable r mm ss) else true
+    end.
+
+  Definition accept (x : input) : bool * list cert :=
+    if detached x then try_detached (candidates x) (m x) (s x) else try_certs (candidates x) (m x) (s x).
+
+  (* ---- the long-lived receiver: verifications interleaved with metadata reloads ---- *)
+  Record query := {
+    q_claimed : option string;
+    q_embedded : list cert;
+    q_detached : bool;
+    q_m : msg;
+    q_s : sig
+  }.
+
+  Definition at_md (mdx : metadata) (only : bool) (q : query) : input :=
+    Build_input mdx only (q_claimed q) (q_embedded q) (q_detached q) (q_m q) (q_s q).
+
+  Inductive op :=
+  | Reload (mdx : metadata)       (* reload_metadata / MetadataStore.reload succeeded *)
+  | ReloadFailed                  (* reload raised: the previous set is restored *)
+  | Check (q : query).            (* one signed message is verified *)
+
+  (* state = the metadata loaded now; nothing else is remembered between verifications *)
+  Fixpoint run_ops (cur : metadata) (only : bool) (ops : list op) : list (bool * list cert) :=
+    match ops with
+    | [] => []
+    | Reload m' :: r => run_ops m' only r
+    | ReloadFailed :: r => run_ops cur only r
+    | Check q :: r => accept (at_md cur only q) :: run_ops cur only r
+    end.
 End Model.
 
 
@@ -90,5 +154,19 @@ Arguments accept {cert msg sig}.
 Arguments candidates {cert msg sig}.
 Arguments try_certs {cert msg sig}.
 Arguments signing_certs {cert}.
+Arguments walk_certs {cert}.
 Arguments extract_signing {cert}.
 Arguments lookup_md {cert}.
+Arguments try_detached {cert msg sig}.
+Arguments hits_unreadable {cert msg sig}.
+Arguments q_claimed {cert msg sig}.
+Arguments q_embedded {cert msg sig}.
+Arguments q_detached {cert msg sig}.
+Arguments q_m {cert msg sig}.
+Arguments q_s {cert msg sig}.
+Arguments Build_query {cert msg sig}.
+Arguments at_md {cert msg sig}.
+Arguments Reload {cert msg sig}.
+Arguments ReloadFailed {cert msg sig}.
+Arguments Check {cert msg sig}.
+Arguments run_ops {cert msg sig}.
